@@ -69,8 +69,9 @@ def make(d, mode="w", normalize=None, inputs=None, **kwargs):
     else:
         inputs["P"] = [list(p) for p in d["P"]]
         obj.set_ctrlpts(inputs["P"], *szs)
-    if d.get("kv_tuple") and norm:
-        # knot vectors handed over as tuples (a normalising shape converts whatever sequence it is given)
+    if d.get("kv_tuple"):
+        # knot vectors handed over as tuples (a normalising shape converts whatever sequence it is given; a shape created with
+        # normalize_kv=False keeps the tuple, and every operation of the pinned tree works on it as on a list)
         if d["kind"] == "curve":
             obj.knotvector = tuple(d["kv"][0])
         elif d["kind"] == "surface":
@@ -92,6 +93,13 @@ def make(d, mode="w", normalize=None, inputs=None, **kwargs):
             inputs["kv1"] = inputs["kv0"]
         obj.knotvector_u, obj.knotvector_v, obj.knotvector_w = inputs["kv0"], inputs["kv1"], inputs["kv2"]
     return obj
+
+
+def tiny_range(d):
+    """A generated definition with a very short parameter range (gen.affine class 'tiny').  The binary span search identifies
+    every parameter closer than 1e-5 to the end of the domain with the end (an absolute tolerance of the pinned tree), so it is
+    only offered for ranges where that is a negligible part of the domain."""
+    return bool(d.get("affine")) and any(a[1] < 1e-3 for a in d["affine"])
 
 
 def pdim_of(obj):
@@ -156,6 +164,19 @@ def resolve_param(p, kv, n, desc, others=()):
     if kind == "zero":
         if a < 0.0 < b:
             return 0.0, ("knot" if 0.0 in kv else "in")
+        kind = "in"
+    if kind == "edge":
+        # right next to the start or the end of the domain (strictly inside the first / last non-empty span)
+        import math
+        eps = desc[4] * max(1.0, abs(b - a))
+        if desc[3] > 0:
+            u = a + eps if eps else math.nextafter(a, math.inf)
+            ok = a < u < min(k for k in kv if k > a)
+        else:
+            u = b - eps if eps else math.nextafter(b, -math.inf)
+            ok = max(k for k in kv if k < b) < u < b
+        if ok:
+            return u, "in"
         kind = "in"
     if kind == "within":
         inner = sorted(set(k for k in kv[p + 1:n] if a < k < b and abs(k) < 4.0))
